@@ -533,6 +533,26 @@ impl MutableArchive {
         let block_index = old_entry.block_index;
         let locale = old_entry.locale;
 
+        // The encryption key of a file is derived from its plain name. Moving the hash
+        // entry of an encrypted file to a name with a different key would leave data
+        // that can no longer be decrypted, and re-encryption is not implemented.
+        let is_encrypted = self
+            .block_table
+            .as_ref()
+            .and_then(|t| t.entries().get(block_index as usize))
+            .is_some_and(|b| b.is_encrypted());
+        if is_encrypted
+            && hash_string(crate::path::plain_file_name(&old_name), hash_type::FILE_KEY)
+                != hash_string(crate::path::plain_file_name(&new_name), hash_type::FILE_KEY)
+        {
+            return Err(Error::OperationNotSupported {
+                version: self.archive.header().format_version as u16,
+                operation: format!(
+                    "Renaming encrypted file '{old_name}' to a name with a different encryption key"
+                ),
+            });
+        }
+
         // Remove old hash entry
         if let Some(hash_table) = &mut self.hash_table {
             hash_table.get_mut(old_hash_index).unwrap().block_index = HashEntry::EMPTY_DELETED;
